@@ -335,7 +335,9 @@ func (p *Program) assertStructure() {
 				case *ssa.Go:
 					bad(f, in, "go statement")
 				case *ssa.Defer:
-					bad(f, in, "defer statement")
+					if cal := x.Common().StaticCallee(); cal == nil || cal.Pkg == nil || cal.Pkg.Pkg.Path() != "sync" {
+						bad(f, in, "defer statement (only deferred sync unlocks are modelled)")
+					}
 				case *ssa.Send, *ssa.Select, *ssa.MakeChan:
 					bad(f, in, "channel operation")
 				case *ssa.MapUpdate, *ssa.MakeMap, *ssa.Lookup, *ssa.Range, *ssa.Next:
